@@ -30,11 +30,11 @@ def setup():
 
 
 # ------------------------------------------------------------------------------------------ generator
-def dyndep_scenario(rng, sid, static=False, on_rule=False):
+def dyndep_scenario(rng, sid, static=False, on_rule=False, respell=True):
     g = gen.Gen(random.Random(rng.randint(0, 2 ** 60)), size=rng.randint(1, 4),
                 feat=dict(deps=0.3, phony=0.1, restat=0.2, generator=0.0, vals=0.1, rsp=0.0, chain=0.7, pools=0.2, dyndep=0.0))
     sc = g.scenario(sid)
-    sc = g.add_dyndep(sc, static=static, on_rule=on_rule)
+    sc = g.add_dyndep(sc, static=static, on_rule=on_rule, respell=respell)
     if not static and rng.random() < 0.35:
         # a second dyndep file whose statements may take what the first one's statements produce (two levels)
         sc = g.add_dyndep(sc, static=False, on_rule=False, tag="e")
@@ -375,7 +375,7 @@ def classify(sc, ddpath, text):
 def run_invalid(ctx, rng, n):
     items = []
     for k in range(n):
-        sc = dyndep_scenario(rng, "C11i-%d-%d" % (ctx.seed, k), static=True)
+        sc = dyndep_scenario(rng, "C11i-%d-%d" % (ctx.seed, k), static=True, respell=False)
         ddp = "dd/x.dd"
         good = sc["sources"][ddp]
         variants = []
